@@ -148,7 +148,10 @@ def run(chk: Check) -> None:
     stamped = []
     t = dt(2023, 11, 20, 8, 32, 6, 904058)
     n_log = 3000 if thorough else 600
-    for fr in frames[:n_log]:
+    for i_fr, fr in enumerate(frames[:n_log]):
+        if i_fr in (n_log // 3, 2 * n_log // 3, 2 * n_log // 3 + 5):
+            plog.reconfigure()      # a second / third gateway in this process: the session goes on in the same file
+            chk.count("log.reconfigured")
         t += td(microseconds=rnd.randrange(1, 3_000_000))
         k = rnd.random()
         if k < 0.12:  # clocks of coarser grain: whole seconds, whole milliseconds, the extremes of the fraction
@@ -185,6 +188,7 @@ def run(chk: Check) -> None:
     chk.extra["log_packets_replayed"] = len(got_l)
     # every written line must come back through from_file exactly
     seen = set()
+    n_lines_of: dict = {}
     for ln in lines:
         if not ln.strip() or ln.startswith("#"):
             continue
@@ -202,8 +206,13 @@ def run(chk: Check) -> None:
             continue
         key = (p.dtm, str(p))
         seen.add(key)
+        n_lines_of[key] = n_lines_of.get(key, 0) + 1
         if key not in exp_map or exp_map[key] != p._rssi:
             chk.violation("log.line:" + ln, f"log line {ln!r} reads back as {p.dtm} {p._rssi} {p}", {"op": "log", "line": ln})
+    dup = [k for k, n in n_lines_of.items() if n > 1]
+    if dup:
+        chk.violation("log.duplicated", f"{len(dup)} packets were written to the packet log more than once (first: {dup[0][0].isoformat()} {dup[0][1]!r}, "
+                      f"{n_lines_of[dup[0]]} lines): a replay delivers them again", {"op": "log", "frame": dup[0][1]})
     # ... and every packet that was logged must be among them (none lost, whatever its timestamp)
     for a, b, c in expected:
         if (a, c) not in seen:
